@@ -67,6 +67,7 @@ def expand(item, seed):
                     yield dict(sc, sender={"at": S, "block": 14 * S, "len": 50})
                 if "ping_timeout" in sq and onrec:
                     yield dict(sc, reconnect=5 * S, outcomes=[dict(_out(x), then_eof=True) if x == "ping_timeout" else _out(x) for x in sq] + [_out("server_close", 2)])
+                    yield dict(sc, reconnect=5 * S, outcomes=[dict(_out(x), then_eof="reset") if x == "ping_timeout" else _out(x) for x in sq] + [_out("server_close", 2)])
                 if onrec and len(sq) <= 1:
                     yield dict(sc, outcomes=[_out(x) for x in sq] + [dict(_out("server_close", 2), then_reset=True)])
     elif k == "closer_sweep":
@@ -89,7 +90,7 @@ def gen(rng):
         if o["kind"] in ("eof", "reset") and rng.random() < 0.4:
             o["cut"] = rng.choice(("mid_frame", "after_first_fragment", "mid_header"))
         if o["kind"] == "ping_timeout" and rng.random() < 0.4:
-            o["then_eof"] = True
+            o["then_eof"] = rng.choice((True, "reset"))
     outs.append(_out("server_close", rng.randrange(0, 4), rng.choice((S, 4 * S))))
     if rng.random() < 0.2:
         outs[-1]["then_reset"] = True
@@ -181,7 +182,8 @@ def run(sc, choices=None):
                     # waiting out the reconnect interval: one loss, reported a second time
                     if rr <= 2 * int(ping["timeout"]):
                         raise InvalidScenario("then_eof needs a reconnect interval above two ping timeouts")
-                    script.append({"t": 2 * int(ping["interval"]) + 2 * int(ping["timeout"]) + rr // 2, "end": "eof"})
+                    # (then_eof == "reset": it is torn down by a reset - shutdown(2) on that socket then reports ENOTCONN)
+                    script.append({"t": 2 * int(ping["interval"]) + 2 * int(ping["timeout"]) + rr // 2, "end": "reset" if o["then_eof"] == "reset" else "eof"})
             else:
                 it_ = {"t": at, "hex": R.encode_frame(1, 8, b"\x03\xe8bye").hex()}
                 if o.get("then_reset"):
